@@ -173,6 +173,56 @@ func genMeta(c *Ctx) {
 							sealedOK = false
 						}
 					}
+					// two encrypted entries read one after the other: what the first read returned is still that value
+					// after the second read (and after reading the first entry again with another key)
+					{
+						m6 := meta.NewMeta()
+						pt2 := append([]byte("second-"), c.R.Bytes(len(pt))...)
+						_ = m6.AddEncrypted("first", pt, kc.key)
+						_ = m6.AddEncrypted("second", pt2, kc.key)
+						ro := m6.ReadOnly()
+						r1, e1 := ro.GetEncryptedBytes("first", kc.key)
+						r2, e2 := ro.GetEncryptedBytes("second", kc.key)
+						_, _ = ro.GetEncryptedBytes("first", other)
+						r3, e3 := m6.GetEncryptedBytes("second", kc.key)
+						if e1 != nil || e2 != nil || e3 != nil || !bytes.Equal(r1, pt) || !bytes.Equal(r2, pt2) || !bytes.Equal(r3, pt2) {
+							same = false
+						}
+					}
+					// the same options handed to two constructor calls: two tokens, two encryptions
+					for _, ty := range []string{"dlg", "inv"} {
+						var st [2][]byte
+						ok2 := true
+						dop := []delegation.Option{delegation.WithEncryptedMetaBytes("secret", pt, kc.key), delegation.WithEncryptedMetaString("s2", string(pt), kc.key)}
+						iop := []invocation.Option{invocation.WithEncryptedMetaBytes("secret", pt, kc.key), invocation.WithEncryptedMetaString("s2", string(pt), kc.key)}
+						for k := 0; k < 2; k++ {
+							var mr meta.ReadOnly
+							if ty == "dlg" {
+								tk, err := delegation.New(iss.did, iss.did, command.Command("/"), nil, dop...)
+								if err != nil {
+									ok2 = false
+									break
+								}
+								mr = tk.Meta()
+							} else {
+								tk, err := invocation.New(iss.did, iss.did, command.Command("/"), nil, iop...)
+								if err != nil {
+									ok2 = false
+									break
+								}
+								mr = tk.Meta()
+							}
+							st[k], _ = mr.GetBytes("secret")
+							s2, _ := mr.GetBytes("s2")
+							st[k] = append(append([]byte{}, st[k]...), s2...)
+							if back, err := mr.GetEncryptedBytes("secret", kc.key); err != nil || !bytes.Equal(back, pt) {
+								ok2 = false
+							}
+						}
+						if !ok2 || bytes.Equal(st[0], st[1]) {
+							differs = false
+						}
+					}
 					return WList(WBool(true), WInt(int64(len(stored))), WBool(same), WBool(oerr != nil), WBool(allErr), WBool(differs), WBool(absent), WBool(sealedOK))
 				})
 				c.Emit("meta/"+kc.name, WList(WStr("enc"), WInt(int64(n)), WStr(kc.name)), obs)
